@@ -163,14 +163,14 @@ Proof.
   { unfold hexint_de in H. destruct s as [|c t]; [discriminate|]. unfold from_base16 in H.
     destruct (ascii_eqb c "-"%char).
     { destruct (Nat.ltb (length (c :: t)) 3) eqn:El; [discriminate|]. apply Nat.ltb_ge in El. simpl in El.
-      destruct (is_hex (firstn 2 t)) eqn:Eh; simpl in H; [|discriminate].
+      destruct (is_hex (firstn 2 t)) eqn:Eh; cbn [negb] in H; [|discriminate].
       destruct (hex_digits_int (firstn 2 t)) as (v & Pv & Rv); auto.
       { destruct t as [|a [|b t]]; simpl in *; try lia; discriminate. }
       rewrite Pv in H. inversion H; subst. exists v. split; auto.
       rewrite firstn_length in Rv. replace (Nat.min 2 (length t)) with 2%nat in Rv by lia. simpl in Rv. lia. }
     destruct (ascii_eqb c "+"%char).
     { destruct (Nat.ltb (length (c :: t)) 4) eqn:El; [discriminate|]. apply Nat.ltb_ge in El. simpl in El.
-      destruct (is_hex (firstn 3 t)) eqn:Eh; simpl in H; [|discriminate].
+      destruct (is_hex (firstn 3 t)) eqn:Eh; cbn [negb] in H; [|discriminate].
       destruct (hex_digits_int (firstn 3 t)) as (v & Pv & Rv); auto.
       { destruct t as [|a [|b [|d t]]]; simpl in *; try lia; discriminate. }
       rewrite Pv in H. inversion H; subst. exists v. split; auto.
